@@ -146,6 +146,7 @@ class EngineProxy:
         self.eng = eng                      # kdrv.Engine
         self.calls = []                     # one entry per process_request
         self.errors_built = []
+        self.faults = []                    # injected engine behaviours, consumed one per process_request
 
     @property
     def default_protocol_version(self):
@@ -158,8 +159,17 @@ class EngineProxy:
     def process_request(self, request, credential=None):
         rec = {'credential': credential}
         self.calls.append(rec)
+        fault = self.faults.pop(0) if self.faults else None
         try:
+            if fault is not None and fault[0] == 'crash':
+                raise RuntimeError('injected engine failure')
+            if fault is not None and fault[0] == 'kmiperr':
+                raise kexc.KmipError(reason=fault[1], message=fault[2])
             res = self.eng.engine.process_request(request, credential)
+            if fault is not None and fault[0] == 'max':
+                res = (res[0], fault[1], res[2])
+            if fault is not None and fault[0] == 'unencodable':
+                res[0].batch_items[0].result_status = None          # ResponseBatchItem.write raises AttributeError
         except kexc.KmipError as e:
             rec.update(kind='kmiperr', reason=e.reason, message=str(e))
             raise
@@ -258,7 +268,7 @@ def default_spec(stream, sizes=None, cert=GOOD_CERT, tls=True, plugins=(), ts=16
             'cert': cert, 'tls': tls, 'plugins': list(plugins), 'ts': ts}
 
 
-def run_spec(proxy, spec, dumps=True):
+def run_spec(proxy, spec, dumps=True, settings_from=None):
     """Run one scripted connection against the real session; returns (obs, conn)."""
     cert = make_cert(list(spec['cert'][0]), spec['cert'][1]) if spec['cert'] is not None else None
     conn = FakeConn(spec['stream'], spec['sizes'], cert)
@@ -273,6 +283,8 @@ def run_spec(proxy, spec, dumps=True):
         if isinstance(p.get('url'), str):
             base = p['url'] if p['url'].endswith('/') else p['url'] + '/'
             script[base] = {'user': p['user'], 'groups': p['groups']}
+    if settings_from is not None:          # e.g. the list KmipServerConfig produced from a configuration file
+        settings = settings_from(settings)
     proxy.eng.clock.t = spec['ts']
     stub = SlugsStub(script)
     obs = run_connection(proxy, conn, tls_client_auth=spec['tls'], auth_settings=settings, slugs=stub, dumps=dumps)
@@ -337,7 +349,7 @@ def coq_engine_result(rec):
         enc = 'None' if rec['bytes'] is None else '(Some %s)' % coq_hex(rec['bytes'])
         return '(KResp %s %s (%s, %s))' % (enc, cq.option(rec['max_size'], cq.z), cq.z(rec['version'][0]), cq.z(rec['version'][1]))
     if rec['kind'] == 'kmiperr':
-        return '(KKmipErr %s %s)' % (cq.z(rec['reason'].value), '[' + ';'.join(str(ord(ch)) for ch in rec['message']) + ']%Z')
+        return '(KKmipErr %s %s)' % (cq.z(rec['reason'].value), cq.byts(rec['message'].encode('utf-8', 'surrogatepass')))
     return 'KCrash'
 
 
